@@ -21,7 +21,9 @@ MANIFEST = dict(
          "splitter - the groups are one per job of the remaining splitter, in its order, each holding in order the "
          "jobs whose remaining fields equal it); C02_formulations_agree + C02_partial_flat (when inner products are "
          "over plain fields this is exactly the property's partition: one group per distinct assignment of the "
-         "remaining axes in order of first appearance); C02_all, C02_linked. The negation of good_removalb is the "
+         "remaining axes in order of first appearance); C02_good_removal_class + C02_class_groups (a SYNTACTIC class on "
+         "which good_removalb is proved for every size: flat outer products [f1,...,fn], n>=2, with any non-empty "
+         "combiner - there the groups are the property's partition unconditionally); C02_all, C02_linked. The negation of good_removalb is the "
          "classifier of F02. The model is tied to State.final_combined_ind_mapping and to split().combine() "
          "outputs by generated cases evaluated in Coq.",
     note="Trusted: Coq kernel + vm_compute; hand-written model of splits_groups/combine_final_groups (as far as "
